@@ -226,6 +226,7 @@ type c37Live struct {
 	// a session request whose session has its own, longer-lived context
 	long       bool
 	endSession context.CancelFunc
+	endedAt    time.Duration // when the request was cancelled
 }
 
 func c37Run(t *testing.T, ci any, trace bool) *verifsim.Result {
@@ -350,8 +351,9 @@ func c37Run(t *testing.T, ci any, trace bool) *verifsim.Result {
 				group := []*c37Live{lv} // every fetch that runs under this context
 				lv.cancel = func() {
 					for _, g := range group {
-						if !g.closed {
+						if !g.closed && !g.cancelled {
 							g.cancelled = true
+							g.endedAt = s.Now()
 						}
 					}
 					cancel()
@@ -599,7 +601,36 @@ func c37Run(t *testing.T, ci any, trace bool) *verifsim.Result {
 							}
 						}
 					}
-					s.Failf("not-delivered", "%s never received block #%d although nodes %v hold it and every link was healed %v of simulated time ago (wantlist of the requester: %d entries)", desc, b, hs, settle, len(nodes[lv.node].bs.GetWantlist()))
+					diag := "; the requester's want-list:"
+					wanted := false
+					for _, w := range nodes[lv.node].bs.GetWantlist() {
+						diag += fmt.Sprintf(" #%d", index[w.KeyString()])
+						wanted = wanted || w.KeyString() == k
+					}
+					if !wanted {
+						// Known finding: the key of the live request is not even in its node's
+						// want-list any more. Another fetch of the node that wanted the same key
+						// ended (cancelled) while this one was being set up: the ending session
+						// works out "nobody else wants it", this session registers its interest
+						// (its broadcast is deduplicated against the want that is still listed),
+						// then the ending session's cancel goes out and takes the want with it.
+						for _, e := range lives {
+							if _, wants := e.want[k]; e != lv && wants && e.node == lv.node && e.issued && e.cancelled && e.got[k] == 0 && e.endedAt >= lv.issuedAt {
+								s.Failf("not-delivered-after-overlapping-fetch-cancelled", "%s never received block #%d although nodes %v hold it and every link was healed %v of simulated time ago; the key is no longer in the requester's want-list, and req#%d of the same node, which wanted it too, was cancelled (t=%v) after this request had been issued (t=%v)%s", desc, b, hs, settle, e.idx, e.endedAt, lv.issuedAt, diag)
+								shutdown()
+								return
+							}
+						}
+					}
+					for _, h := range hs {
+						in := false
+						for _, w := range nodes[h].bs.WantlistForPeer(nodes[lv.node].adapt.Self()) {
+							in = in || w.KeyString() == k
+						}
+						has, _ := nodes[h].store.Has(ctx, pool[b].Cid())
+						diag += fmt.Sprintf("; node %d's ledger for the requester has the want: %v (%d entries; block %s in its store: %v)", h, in, len(nodes[h].bs.WantlistForPeer(nodes[lv.node].adapt.Self())), pool[b].Cid(), has)
+					}
+					s.Failf("not-delivered", "%s never received block #%d although nodes %v hold it and every link was healed %v of simulated time ago (wantlist of the requester: %d entries%s)", desc, b, hs, settle, len(nodes[lv.node].bs.GetWantlist()), diag)
 					shutdown()
 					return
 				}
